@@ -10,6 +10,18 @@ CLAIMED = {
          "Machine-checked theorems (Coq 8.16.1, closed under the global context) over an executable model of Channel.read_until_prompt: the call returns only when the received data passes the prompt test, returns exactly the text before the prompt, consumes nothing beyond, and for a stream whose only prompt occurrence is its tail the result is the same for EVERY composition into pieces (literal and bounded-regex prompts, channel or per-call). The model is tied to /repo on every run by running the real Channel and the model on the same scripted transports (exhaustive short streams x all compositions) and comparing all observations.",
          "Trusted: Coq kernel + vm_compute; hand-written model coq/Channel.v, Regex.v, Utf8.v (validated against CPython); the correspondence harness; regex fragment = literals/classes/dot/seq/alt/bounded greedy repetition.",
          "DESIGN.md 8/C02"),
+ "C03": ("Coq proof over the channel model (conservation invariant buf++pending=stream by induction on the read loops; write cursor loop for every partial-write oracle) + correspondence with the real Channel on a scripted ChannelIO",
+         "Machine-checked theorems over an executable model of Channel.read/read_iter/readline/write/send/sendline/sendcontrol: read(n) returns exactly n bytes and never over-reads, a bounded iteration never takes more than its maximum, readline stops exactly after the first line ending, any interleaving of successful reads returns the stream in order exactly once, write delivers exactly the buffer for every partial-write behaviour, forbidden bytes never reach the transport and what did is a clean prefix. Model tied to /repo by differential runs (exhaustive compositions of short streams x op pairs, all accept oracles for short buffers, random scripts) with an independent Python oracle.",
+         "Trusted: Coq kernel + vm_compute; hand-written model coq/Channel.v; the correspondence harness; transport contract (1..n bytes per read, 1..len per write).",
+         "DESIGN.md 8/C03"),
+ "C04": ("Coq proof over the channel model (expect loop induction, first-occurrence lemma for bytes.find, regex matcher soundness+completeness for leftmost search) + correspondence with the real Channel",
+         "Machine-checked theorems over an executable model of Channel.expect: it returns after the first piece at which some pattern matches the consumed data and not before, names the lowest-indexed matching pattern, before/match/after partition the consumed bytes around that pattern's first (leftmost) hit, TimeoutError exactly at the deadline otherwise. Model tied to /repo by differential runs over exhaustive short streams x all compositions x pattern pairs, with bytes.find/re.search as independent oracle.",
+         "Trusted: Coq kernel + vm_compute; hand-written models coq/Channel.v, Regex.v (fragment: literals/classes/dot/seq/alt/bounded greedy repetition), Utf8.v; the correspondence harness.",
+         "DESIGN.md 8/C04"),
+ "C06": ("Coq proof of the deadline invariant now <= start+T over the channel model under a virtual clock + correspondence with the real Channel whose `time` module is replaced by the same virtual clock",
+         "Machine-checked theorems: every timed operation (read(n), read_iter, readline, expect, read_until_prompt, send with read-back) has returned or raised by call time + T, raises TimeoutError exactly at call time + T and never earlier, never raises it without a timeout; read_until_timeout returns exactly at T with exactly the data delivered before it. Partial by nature: virtual time only (the interpreter's latency and the OS are not modelled). Tied to /repo by differential runs over generated arrival schedules (trickles, arrivals at the deadline, multi-slice send echoes).",
+         "Trusted: Coq kernel + vm_compute; hand-written model coq/Channel.v; the virtual clock substituted for channel.py's time module; a ChannelIO that honours its own timeout exactly. SubprocessChannelIO's select loop is not covered by the theorems.",
+         "DESIGN.md 8/C06"),
 }
 NOT_YET = "check not built yet (work in progress; will be claimed once its Coq theorems and correspondence check exist)"
 
